@@ -2643,12 +2643,75 @@ func writeBodyFixedSize(w *bufio.Writer, r io.Reader, size int64) error {
 		}
 	}
 
-	n, err := copyBodyStream(w, r)
+	// Never put more than size body bytes on the wire: a body stream yielding
+	// more than its declared size would otherwise break the message framing.
+	fw := acquireFixedSizeBodyWriter(w, size)
+	n, err := copyBodyStream(fw, r)
+	releaseFixedSizeBodyWriter(fw)
 
 	if n != size && err == nil {
 		err = fmt.Errorf("copied %d bytes from body stream instead of %d bytes", n, size)
 	}
 	return err
+}
+
+var errBodyStreamTooLong = errors.New("body stream yields more bytes than its declared size")
+
+// fixedSizeBodyWriter passes at most left bytes to w and fails on the first
+// byte beyond that. It keeps the io.ReaderFrom fast path of bufio.Writer
+// (and thus sendfile) by limiting the reader instead.
+type fixedSizeBodyWriter struct {
+	w    *bufio.Writer
+	lr   io.LimitedReader
+	left int64
+}
+
+var fixedSizeBodyWriterPool sync.Pool
+
+func acquireFixedSizeBodyWriter(w *bufio.Writer, size int64) *fixedSizeBodyWriter {
+	v := fixedSizeBodyWriterPool.Get()
+	if v == nil {
+		return &fixedSizeBodyWriter{w: w, left: size}
+	}
+	fw := v.(*fixedSizeBodyWriter) //nolint:forcetypeassert
+	fw.w = w
+	fw.left = size
+	return fw
+}
+
+func releaseFixedSizeBodyWriter(fw *fixedSizeBodyWriter) {
+	fw.w = nil
+	fw.lr.R = nil
+	fixedSizeBodyWriterPool.Put(fw)
+}
+
+func (fw *fixedSizeBodyWriter) Write(p []byte) (int, error) {
+	if int64(len(p)) > fw.left {
+		n, err := fw.w.Write(p[:fw.left])
+		fw.left -= int64(n)
+		if err == nil {
+			err = errBodyStreamTooLong
+		}
+		return n, err
+	}
+	n, err := fw.w.Write(p)
+	fw.left -= int64(n)
+	return n, err
+}
+
+func (fw *fixedSizeBodyWriter) ReadFrom(r io.Reader) (int64, error) {
+	fw.lr.R = r
+	fw.lr.N = fw.left
+	n, err := fw.w.ReadFrom(&fw.lr)
+	fw.left -= n
+	if err == nil && fw.left == 0 {
+		// The declared size has been copied. The stream must be at EOF now.
+		var b [1]byte
+		if m, _ := r.Read(b[:]); m > 0 {
+			err = errBodyStreamTooLong
+		}
+	}
+	return n, err
 }
 
 func copyBodyStream(w io.Writer, r io.Reader) (int64, error) {
